@@ -41,6 +41,14 @@ Fixpoint dec_chunks (l : list N) (fuel : nat) : option (list chunk) :=
     end
   end.
 
+(* a leaf is at most one chunk group, unless it stands for a fully selected node below min_level:
+   a plan leaf never hides a hash pair that the outboard of this block size stores and min_level asks for *)
+Definition leaf_bound_ok (bs ml : N) (items : list chunk) : bool :=
+  forallb (fun c => match c with
+                    | CLeaf _ z _ _ => leaf_chunks z <=? N.max (2 ^ bs) (2 ^ ml)
+                    | CParent n _ _ _ _ => true
+                    end) items.
+
 Definition holds_plan (a o : list N) : bool :=
   let size := arg a 1 in let bs := arg a 2 in let which := arg a 4 in
   let q := plan_query a in
@@ -48,7 +56,8 @@ Definition holds_plan (a o : list N) : bool :=
   | None => false
   | Some items =>
       if which =? 0 then holds_post_plan size bs items
-      else holds_pre_plan size bs q items
+      else holds_pre_plan size bs q items &&
+           (if which =? 1 then leaf_bound_ok bs (arg a 3) items else leaf_bound_ok bs bs items)
   end.
 
 (* ---- family ranges: args [dev; fn; p1; p2; boundaries...] ----
